@@ -131,39 +131,38 @@ inductive ScanOut where
   deriving Repr, DecidableEq, Inhabited
 
 /-- `Scanner.Scan` with `s.p = FastaParser`, repeated until it returns false.  A successful
-parse consumes at least the `>`, so `length + 1` rounds are enough.  The parse can only fail
-at its first step (see `Gts.Fasta.fastaParse_run`): `Rune('>')` reports the reader's `io.EOF`
-when not even one byte can be requested, a mismatch error otherwise, and `Scanner.Err` hides
-exactly the former. -/
+parse consumes at least the `>`, so `length + 1` rounds are enough.  Since b5ab011 `Scan` first
+requests one byte: when there is none the scan ends regularly (`Err()` is `nil`); an error of the
+parser — also one whose cause is `io.EOF` — is reported. -/
 def scanLoop : Nat → PS → ScanOut
   | 0, _ => .done [] false
   | fuel + 1, s =>
+    if s.rest.isEmpty then .done [] true else
     match fastaParse.run' s with
     | (.ok r, s') =>
       match scanLoop fuel s' with
       | .done rs c => .done (r :: rs) c
       | o => o
-    | (.error .fail, _) => .done [] s.rest.isEmpty
+    | (.error .fail, _) => .done [] false
     | (.error .panic, _) => .panic
 
-/-- the first `Scan` of `NewAutoScanner` (scanner.go:42-69) over
-`sequenceParsers = [GenBankParser, FastaParser]`: `Push`, parse, `Drop` and keep the parser on
-success, else note the position and `Pop`.
+/-- the first `Scan` of `NewAutoScanner` (scanner.go:42-76) over
+`sequenceParsers = [GenBankParser, FastaParser]`: nothing to read → regular end; else `Push`,
+parse, `Drop` and keep the parser on success, else note the position and `Pop`.
 
 **Modelled fragment.**  `GenBankParser` starts with `genbankLocusParser = Seq("LOCUS", …).Children(…)`;
 on input that does not begin with the five bytes `LOCUS` the literal fails, `Seq` and `Map` pop
 their frames, so this alternative *fails without consuming anything and leaves the stack as it
-found it*; its error digs to `io.EOF` iff fewer than five bytes could be requested.  Input that
-does begin with `LOCUS` is outside this model (`unmodelled`).
+found it*.  Input that does begin with `LOCUS` is outside this model (`unmodelled`).
 
-When both fail, both positions equal the start, `maxpos.Less(pos)` is never true, `argmax`
-stays `0` and the reported error is GenBank's. -/
+When both fail the reported error is one of the two parsers' errors, never `io.EOF` itself, so
+`Err()` is not `nil` (b5ab011; before, an error digging down to `io.EOF` — fewer than five bytes
+of anything — was the regular end). -/
 def scanFirstAuto (s : PS) : ScanOut :=
-  if s.rest.take 5 == [76, 79, 67, 85, 83] /- "LOCUS" -/ then .unmodelled
+  if s.rest.isEmpty then .done [] true
+  else if s.rest.take 5 == [76, 79, 67, 85, 83] /- "LOCUS" -/ then .unmodelled
   else
     -- alternative 0 (GenBankParser): Push; fails in place; Pop
-    let gbEOF := s.rest.length < 5
-    let gbPos := 0
     -- alternative 1 (FastaParser): Push; parse
     match (do push; let r ← attempt fastaParse; pure r : P _).run' s with
     | (.ok (some r), s1) =>
@@ -171,12 +170,7 @@ def scanFirstAuto (s : PS) : ScanOut :=
       match scanLoop (s2.rest.length + 1) s2 with
       | .done rs c => .done (r :: rs) c
       | o => o
-    | (.ok none, s1) =>
-      let faEOF := s.rest.isEmpty
-      let faPos := s.rest.length - s1.rest.length
-      -- argmax over [(gbPos, gbEOF), (faPos, faEOF)], first maximum wins, initial maximum 0
-      let clean := if gbPos < faPos then faEOF else gbEOF
-      .done [] clean
+    | (.ok none, _) => .done [] false
     | (.error _, _) => .panic
 
 /-- a whole scan of `text`: `auto = true` is `seqio.NewAutoScanner(r)`, `auto = false` is
